@@ -48,14 +48,21 @@ impl Fmt {
     fn run(&mut self, item: &Item, out: &mut impl std::io::Write) -> Decision {
         let p = item.entry.prepare();
         match self {
-            Fmt::Plain(emf) => {
-                let (s, _) = super::c03::sampling_of(item.rate_exp, &[3]);
-                format_once(emf, &item.entry, &s, out)
-            }
+            // a plain formatter formats every item ITSELF (a sampling wrapper would be a clone,
+            // and the item would never touch the long-lived formatter's state)
+            Fmt::Plain(emf) => decision_of(emf.format(&p, out)),
             Fmt::Sampled(s) => match item.rate_exp {
                 None => decision_of(s.format(&p, out)),
                 Some(k) => {
-                    let rate = if k <= 52 { (2f32).powi(-(k as i32)) } else { (2f32).powi(-70) };
+                    let rate = match k {
+                        0..=52 => (2f32).powi(-(k as i32)),
+                        // non-integer inverse
+                        101..=125 => 1.0 / ((k - 100) as f32 + 0.37),
+                        // rates the formatter refuses (the one rejection that happens before any
+                        // per-entry reset) and rates above one
+                        126..=150 => [0.0f32, -1.0, f32::NAN, f32::INFINITY, 2.0][(k % 5) as usize],
+                        _ => (2f32).powi(-70),
+                    };
                     decision_of(s.format_with_sample_rate(&p, out, rate))
                 }
             },
@@ -128,6 +135,31 @@ fn huge_entry(mb_tenths: u8, tag: u8) -> GenEntry {
     }
 }
 
+/// replaces the number after every `"Timestamp":` by 0 and returns the numbers
+fn mask_timestamps(b: &[u8]) -> (Vec<u8>, Vec<u128>) {
+    let pat = b"\"Timestamp\":";
+    let mut out = Vec::with_capacity(b.len());
+    let mut stamps = vec![];
+    let mut i = 0;
+    while i < b.len() {
+        if b[i..].starts_with(pat) {
+            out.extend_from_slice(pat);
+            i += pat.len();
+            let mut v: u128 = 0;
+            while i < b.len() && b[i].is_ascii_digit() {
+                v = v.saturating_mul(10).saturating_add((b[i] - b'0') as u128);
+                i += 1;
+            }
+            stamps.push(v);
+            out.push(b'0');
+        } else {
+            out.push(b[i]);
+            i += 1;
+        }
+    }
+    (out, stamps)
+}
+
 pub fn check(case: &Case) -> CaseResult {
     let mut long = no_panic("emf-build", || Fmt::new(&case.cfg, case.mode))?;
     let mut classes: Classes = vec![];
@@ -152,13 +184,32 @@ pub fn check(case: &Case) -> CaseResult {
         let (dec, io_failed) = match &item.script {
             None => {
                 let mut out: Vec<u8> = vec![];
+                let clocked = !item.entry.ops.iter().any(|o| matches!(o, Op::Timestamp { .. }));
+                let ms_now = || std::time::SystemTime::now().duration_since(std::time::UNIX_EPOCH).map(|d| d.as_millis()).unwrap_or(0);
+                let before = ms_now();
                 let dec = no_panic("emf-format", || long.run(item, &mut out))?;
+                let after = ms_now();
                 vensure!(
                     dec.kind() == ref_dec.kind(),
                     "history:decision-differs",
                     "position {i} ({}): long-lived formatter decided {dec:?}, a fresh one {ref_dec:?}",
                     item.kind
                 );
+                if clocked {
+                    let (masked, stamps) = mask_timestamps(&out);
+                    let (ref_masked, _) = mask_timestamps(&ref_out);
+                    vensure!(
+                        stamps.iter().all(|t| *t + 2000 >= before && *t <= after + 2000),
+                        "history:stale-timestamp",
+                        "position {i} ({}): an entry without a timestamp of its own was written with Timestamp {stamps:?}, the call ran between {before} and {after} ms",
+                        item.kind
+                    );
+                    out = masked;
+                    ref_out = ref_masked;
+                    if dec == Decision::Ok {
+                        classes.push("clock-stamped-item");
+                    }
+                }
                 vensure!(
                     lines_multiset(&out) == lines_multiset(&ref_out),
                     "history:output-differs",
@@ -259,6 +310,12 @@ pub fn check(case: &Case) -> CaseResult {
         if split {
             classes.push("split-item");
         }
+        if split && io_failed {
+            classes.push("io-failed-split-item");
+        }
+        if matches!(case.mode, Mode::Sampled) && matches!(item.rate_exp, Some(126..=150)) {
+            classes.push("sample-rate-refused-on-long-lived-sampler");
+        }
         if matches!(dec, Decision::Validation(_)) {
             classes.push("rejected-item");
         }
@@ -341,9 +398,14 @@ fn arb_case(max_items: usize, huge_weight: u32) -> impl Strategy<Value = Case> {
                     ),
                     _ => (huge_entry(tag, tag), "huge"),
                 };
-                // entries without a timestamp would compare wall clocks
+                // entries without a timestamp take the wall clock: every fourth valid / error-report
+                // item without a writer script is left (or made) timestamp-less and compared
+                // modulo the Timestamp value, which must lie inside the call's own time window -
+                // not be a left-over of an earlier entry
                 let mut entry = entry;
-                if !entry.ops.iter().any(|o| matches!(o, Op::Timestamp { .. })) {
+                if tag % 4 == 0 && script.is_none() && (kind == "valid" || kind == "error-report") {
+                    entry.ops.retain(|o| !matches!(o, Op::Timestamp { .. }));
+                } else if !entry.ops.iter().any(|o| matches!(o, Op::Timestamp { .. })) {
                     entry.ops.push(Op::Timestamp {
                         secs: 77,
                         nanos: 5,
@@ -361,7 +423,7 @@ fn arb_case(max_items: usize, huge_weight: u32) -> impl Strategy<Value = Case> {
         })
 }
 
-pub const RULE: &str = "sequence of 2-11 items over ONE long-lived formatter (plain / cloned mid-sequence / SampledEmf with scripted rng) vs a freshly built formatter with the same configuration at every position. Items: valid entry, valid + injected validation defect, arbitrary entry, unroutable error report, 1.1-3 MB entry (forces the shrink_to(1 MiB) path), each optionally over a short-writing / interrupting / failing writer, each optionally sampled (weight 2^k). Oracle: same decision kind and same multiset of lines at every position (faulting writer: Io + complete fresh lines + prefix). Non-trivial = a (rejected | split | huge | io-failed) item immediately followed by an accepted item of a different kind";
+pub const RULE: &str = "sequence of 2-11 items over ONE long-lived formatter (plain / cloned mid-sequence / SampledEmf with scripted rng) vs a freshly built formatter with the same configuration at every position. Items: valid entry, valid + injected validation defect, arbitrary entry, unroutable error report, 1.1-3 MB entry (forces the shrink_to(1 MiB) path), each optionally over a short-writing / interrupting / failing writer, a plain formatter formats every item itself, a long-lived SampledEmf gets rates 2^-k, non-integer inverses, and rates it refuses (0, negative, NaN, infinite, > 1); every fourth valid / error-report item carries no timestamp of its own (compared modulo the Timestamp value, which must lie in the call's own time window). Oracle: same decision kind and same multiset of lines at every position (faulting writer: Io + complete fresh lines + prefix). Non-trivial = a (rejected | split | huge | io-failed) item immediately followed by an accepted item of a different kind";
 
 pub fn run(ctx: &mut Ctx) {
     ctx.assume("every item carries a timestamp (entries without one read the wall clock, which differs between the two formatters by design)");
@@ -379,6 +441,9 @@ pub fn run(ctx: &mut Ctx) {
                 "error-report-item",
                 "mode-clone",
                 "mode-sampled",
+                "clock-stamped-item",
+                "io-failed-split-item",
+                "sample-rate-refused-on-long-lived-sampler",
             ]),
         || arb_case(11, 0),
         check,
